@@ -118,7 +118,7 @@ class C16(CheckBase):
         if rng.chance(0.12):
             files = [j for j, h in enumerate(hist) if h['op'] == 'file']
             bad = {'at': rng.choice(files), 'how': rng.choice(['missing', 'garbage', 'openfail'])}
-        return {'hist': hist, 'bad': bad, 'addr': rng.weighted([(6, 'attached'), (2, 'empty'), (1, 'far')]),
+        return {'hist': hist, 'bad': bad, 'addr': rng.weighted([(6, 'attached'), (2, 'empty'), (1, 'far'), (2, 'alias')]),
                 'pick': rng.below(1000), 'cmd': rng.choice(['show-titles', 'cat', 'type', 'dump-sector', 'cat-opt', 'type-ctx']),
                 'tpick': rng.below(1000)}
 
@@ -304,7 +304,21 @@ class C16(CheckBase):
         else:
             empties = [d for d in range(0, max(attached) + 3) if d not in final]
             k = empties[case['pick'] % len(empties)] if addr == 'empty' else max(attached) + 50 + case['pick']
-            argv = ['dfs'] + self.opts(hist) + (['show-titles', str(k)] if case['cmd'] != 'cat' else ['cat', str(k)])
+            if addr == 'alias':
+                # a number that differs from an occupied drive's by a multiple of a power of two: it names no drive,
+                # however many bits of it an implementation keeps
+                occ = sorted(attached)
+                d0 = occ[case['pick'] % len(occ)]
+                k = d0 + [1 << 32, 1 << 33, 1 << 31, 1 << 16, 1 << 8, 3 << 32, (1 << 63) - (1 << 32), 1 << 40][case['tpick'] % 8]
+                if k in final:
+                    k += 1 << 34
+            how = case['cmd']
+            if addr == 'alias' and how in ('cat-opt', 'type-ctx'):
+                argv = ['dfs'] + self.opts(hist) + ['--drive', str(k), 'cat']
+            elif addr == 'alias' and how == 'type':
+                argv = ['dfs'] + self.opts(hist) + ['info', ':%d.*.*' % k]
+            else:
+                argv = ['dfs'] + self.opts(hist) + (['show-titles', str(k)] if case['cmd'] != 'cat' else ['cat', str(k)])
             r = ctx.sk.run(sb, exe, argv)
             out.add_run(r)
             out.sig('addr-' + addr, shape, kinds, argv[-2], r.exit_class(), r['log_hash'])
